@@ -3,7 +3,7 @@
 # Confirms a seeded change from /tmp/seedout/<ID>/m<k> in a scratch worktree of /repo HEAD (applies, test-suite passes, demo
 # fails with / passes without), runs the given checks against it, and files it under /verif/seeded/<ID>-m<k>/ with meta.json.
 id="$1"; k="$2"; shift 2
-src="/tmp/seedout/$id/m$k"
+src="${SEEDSRC:-/tmp/seedout}/$id/m$k"
 [ -f "$src/patch.diff" ] || { echo "no $src/patch.diff"; exit 3; }
 wt="$(mktemp -d /tmp/seedeval_XXXXXX)"; run="$(mktemp -d /tmp/seedrun_XXXXXX)"
 git -C /repo worktree add -q --detach "$wt" HEAD || exit 3
@@ -23,7 +23,7 @@ for c in "$@"; do
   echo "   check $c rc=$rc $line"
   results="$results{\"check\":\"$c\",\"rc\":$rc,\"root_causes\":\"$(echo "$line" | sed 's/"/\\"/g' | cut -c1-400)\"},"
 done
-dest="/verif/seeded/$id-m$k"; mkdir -p "$dest"
+dest="/verif/seeded/$id-${SEEDTAG:-}m$k"; mkdir -p "$dest"
 cp "$src/patch.diff" "$dest/patch.diff"; cp "$demo" "$dest/demo.py"; [ -f "$src/notes.md" ] && cp "$src/notes.md" "$dest/notes.md"
 /venv/bin/python - "$dest" "$id" "$clean_rc" "$mut_rc" "$suite" "[${results%,}]" <<'PY'
 import json, sys, subprocess
